@@ -735,6 +735,9 @@ func (ex *Exec) runBlocks(fr *Frame, start *ssa.BasicBlock) Value {
 		var next *ssa.BasicBlock
 		for _, in := range b.Instrs[nphi:] {
 			ex.instrs++
+			if p := in.Pos(); p.IsValid() {
+				ex.curPos = p
+			}
 			if ex.instrs > ex.cfg.InstrBudget {
 				panic(pathAbort{kind: "budget", msg: fmt.Sprintf("instruction budget %d exceeded", ex.cfg.InstrBudget)})
 			}
